@@ -25,6 +25,7 @@ var (
 	GemPreds        = gem.VerifPreds
 	GemFromRunes    = gem.VerifFromRunes
 	GemZeroFilled   = gem.VerifZeroFilled
+	GemResetZero    = gem.VerifResetZero
 	RangeToIndexes  = util.RangeToIndexes
 	TbNew           = tb.New
 	CollapseSpace   = manip.CollapseSpace
